@@ -9,6 +9,22 @@ import z3
 from .vtypes import (RefS, StrS, NULL, Val, REG, sort_of, is_ref, is_opt, strip_opt, FALSE, TRUE, ty_str)
 
 
+def has_quantifier(e):
+    stack = [e]
+    seen = set()
+    while stack:
+        t = stack.pop()
+        if z3.is_quantifier(t):
+            return True
+        i = t.get_id()
+        if i in seen:
+            continue
+        seen.add(i)
+        if z3.is_app(t):
+            stack.extend(t.children())
+    return False
+
+
 class PathEnd(Exception):
     """The current path is abandoned (infeasible, or cut after an invariant check)."""
 
@@ -132,6 +148,8 @@ class State:
         base = strip_opt(v.ty)
         if is_ref(base):
             inv = z3.And(self.alloc[v.term], self.cls_is(v.term, base[1])) if assume_alloc else self.cls_is(v.term, base[1])
+            if REG.get(base[1]).kind == "list":
+                inv = z3.And(inv, z3.Select(self.hget("$len", z3.IntSort()), v.term) >= 0)
             if is_opt(v.ty):
                 self.assume(z3.Or(v.term == NULL, inv))
             else:
@@ -158,10 +176,12 @@ class State:
 
     def cls_is(self, ref, clsname):
         """dynamic class of ref is clsname or a (declared) subclass"""
-        ids = [REG.get(n).cid for n in REG.subclass_names(clsname)]
+        ids = [REG.get(n).cid for n in REG.subclass_names(clsname) if not REG.get(n).abstract]
         kd = REG.get(clsname)
-        if kd.cid not in ids:
+        if kd.cid not in ids and not kd.abstract:
             ids.append(kd.cid)
+        if not ids:
+            ids = [kd.cid]
         c = z3.Select(self.cls_arr(), ref)
         return z3.Or(*[c == i for i in sorted(ids)])
 
@@ -176,7 +196,10 @@ class State:
         if z3.is_true(c):
             return
         self.pc.append(c)
-        self.solver.add(c)
+        if not has_quantifier(c):
+            # the per-path feasibility solver only sees the quantifier-free facts (an over-approximation of
+            # feasibility: more paths are explored, obligations always carry the full path condition)
+            self.solver.add(c)
 
     def feasible(self, c=None):
         if c is None:
